@@ -13,20 +13,21 @@ import (
 
 // Step is one invocation family of a property's test binary.
 type Step struct {
-	Run       string // test function name (anchored)
-	ReplayRun string // name recorded in replay files when it differs from Run
-	Kind      string // "rapid" (default), "test" (plain go test function), "fuzz" (native fuzzing, thorough only)
-	Quick     int    // rapid checks in the quick tier (0 = step disabled in quick)
-	Thorough  int    // rapid checks in the thorough tier (0 = step disabled in thorough)
-	QShards   int    // processes in quick (default 1)
-	TShards   int    // processes in thorough (default 8)
-	Race      bool   // build with -race
-	MemMB     int    // RLIMIT_AS for the child (0 = none)
-	QTimeout  time.Duration
-	TTimeout  time.Duration
-	Parallel  int
-	Env       []string
-	FuzzTime  time.Duration // kind fuzz
+	Run        string // test function name (anchored)
+	ReplayRun  string // name recorded in replay files when it differs from Run
+	Kind       string // "rapid" (default), "test" (plain go test function), "fuzz" (native fuzzing, thorough only)
+	Quick      int    // rapid checks in the quick tier (0 = step disabled in quick)
+	Thorough   int    // rapid checks in the thorough tier (0 = step disabled in thorough)
+	QShards    int    // processes in quick (default 1)
+	TShards    int    // processes in thorough (default 8)
+	Race       bool   // build with -race
+	MemMB      int    // RLIMIT_AS for the child (0 = none)
+	QTimeout   time.Duration
+	TTimeout   time.Duration
+	Parallel   int
+	Env        []string
+	FuzzTime   time.Duration // kind fuzz
+	FullChecks bool          // every shard runs the full number of checks (the test partitions its own domain by VERIF_SHARD)
 }
 
 // Plan is the list of steps of one property.
